@@ -13,7 +13,10 @@ CONSTANTS
  DevBackupOverwrite = FALSE
  DevNoBackup = FALSE
  DevSeqOpenEarly = FALSE
+ DevLinkDirect = FALSE
+ DevBackupCount = FALSE
 INVARIANT HistoryClean
 INVARIANT NoLoss
+INVARIANT BackupResolves
 INVARIANT BoundOK
 CHECK_DEADLOCK FALSE
